@@ -154,6 +154,41 @@ def body_grid(rep, case):
         body(rep, one, "grid")
 
 
+def body_repoll(rep, case):
+    """The same schedule record listed twice (get-schedules reply parsed at two different moments): each listing's
+    display text must name the next run as seen from the moment of that listing."""
+    from aioswitcher.api.messages import SwitcherGetSchedulesResponse
+    from ..ref import replies
+    zname, mask, start_min = case["zone"], case["mask"], case["start"]
+    z = vclock.zone(zname)
+    first = True
+    for now in (case["now1"], case["now2"]):
+        y, mo, d, h, mi, s = now
+        with vclock.frozen(zname, y, mo, d, h, mi, s):
+            day0 = dt.datetime(y, mo, d, start_min // 60, start_min % 60, tzinfo=z)
+            epoch = int(day0.timestamp()) if first else epoch      # the record itself never changes
+            reply = replies.schedules([(case.get("slot", 2), True, mask, 1, epoch, epoch + 1800, bytes(4))])
+            resp = SwitcherGetSchedulesResponse(reply)
+            sch = next(iter(resp.schedules))
+            weekday = dt.date(y, mo, d).weekday()
+            token = expected_token(weekday, h * 60 + mi, mask, int(sch.start_time[:2]) * 60 + int(sch.start_time[3:]))
+            rep.tick("repoll", key=(zname, now, mask, start_min, first), nontrivial=not first, sample=case if not first else None,
+                     labels=("second-listing",) if not first else ("first-listing",))
+            judge(sch.display, token, sch.start_time, mask, case, "C13/display" + ("/second-listing" if not first else ""))
+        first = False
+
+
+def strat_repoll():
+    def mk(z, day, s1, gap_min, mask, start):
+        t1 = dt.datetime(day.year, day.month, day.day) + dt.timedelta(seconds=s1)
+        t2 = t1 + dt.timedelta(minutes=gap_min)
+        return {"zone": z, "now1": [t1.year, t1.month, t1.day, t1.hour, t1.minute, t1.second],
+                "now2": [t2.year, t2.month, t2.day, t2.hour, t2.minute, t2.second], "mask": mask * 2, "start": start}
+    return st.builds(mk, st.sampled_from(["UTC", "Asia/Jerusalem", "America/New_York", "Asia/Kathmandu"]),
+                     st.dates(dt.date(2024, 1, 8), dt.date(2024, 2, 20)), st.integers(0, 86399),
+                     st.one_of(st.integers(1, 180), st.integers(1, 8 * 1440)), st.integers(1, 127), st.integers(0, 1439))
+
+
 def strat_random():
     return st.builds(
         lambda z, day, now_s, mask, start, via: {
@@ -182,4 +217,5 @@ def subchecks(tier):
     return [
         Sub("grid", body_grid, cases=cases_grid(tier), shards=16, exhaustive=True),
         Sub("random", body_random, strategy=strat_random, n=400_000 if big else 4000, shards=16 if big else 4),
+        Sub("repoll", body_repoll, strategy=strat_repoll, n=100_000 if big else 2500, shards=16 if big else 4),
     ]
